@@ -50,8 +50,10 @@ func SpecReplyInt(reply interface{}) int { panic("abstract spec function") }
 
 //@ func client.Redis.Do(self, cmd, args) (reply, err)
 //@   trusted abstract lease store: each call is one request, recorded in the ghost log
-//@   modifies reqs, lastCmd, lastNArgs, lastA1, lastA2, lastA3, lastA4, lastReply
+//@   modifies reqs, lastCmd, lastNArgs, lastA1, lastA2, lastA3, lastA4, lastReply, nDel, nPexpire
 //@   ensures logged: reqs == old(reqs) + 1 && lastCmd == cmd && lastNArgs == len(args) && lastReply == reply
+//@   ensures dels: nDel == old(nDel) + ite(cmd == "del", 1, 0)
+//@   ensures pexpires: nPexpire == old(nPexpire) + ite(cmd == "pexpire", 1, 0)
 //@   ensures a1: len(args) > 1 ==> lastA1 == args[1]
 //@   ensures a2: len(args) > 2 ==> lastA2 == args[2]
 //@   ensures a3: len(args) > 3 ==> lastA3 == args[3]
@@ -80,8 +82,10 @@ func SpecReplyInt(reply interface{}) int { panic("abstract spec function") }
 //@   ghost var lastA3 dyn
 //@   ghost var lastA4 dyn
 //@   ghost var lastReply dyn
+//@   ghost var nDel mathint
+//@   ghost var nPexpire mathint
 //@   requires nonnil: e != nil && e.cli != nil
-//@   modifies reqs, lastCmd, lastNArgs, lastA1, lastA2, lastA3, lastA4, lastReply
+//@   modifies reqs, lastCmd, lastNArgs, lastA1, lastA2, lastA3, lastA4, lastReply, nDel, nPexpire
 //@   ensures one_atomic_request: reqs == old(reqs) + 1 && lastCmd == "eval" && lastNArgs == 5
 //@   ensures one_key: len(asbytes(lastA1)) == 1 && asbytes(lastA1)[0] == '1'
 //@   ensures script_args: lastA2 == dyn(e.key) && lastA3 == dyn(e.id) && lastA4 == dyn(e.ttl)
@@ -100,7 +104,7 @@ func SpecReplyInt(reply interface{}) int { panic("abstract spec function") }
 //@   ghost var lastA4 dyn
 //@   ghost var lastReply dyn
 //@   requires nonnil: e != nil && e.cli != nil
-//@   modifies reqs, lastCmd, lastNArgs, lastA1, lastA2, lastA3, lastA4, lastReply
+//@   modifies reqs, lastCmd, lastNArgs, lastA1, lastA2, lastA3, lastA4, lastReply, nDel, nPexpire
 //@   ensures one_atomic_request: reqs == old(reqs) + 1 && lastCmd == "eval"
 //@   ensures success_only_if_granted: result == nil ==> SpecReplyInt(lastReply) == 1
 
@@ -116,7 +120,7 @@ func SpecReplyInt(reply interface{}) int { panic("abstract spec function") }
 //@   ghost var lastA4 dyn
 //@   ghost var lastReply dyn
 //@   requires nonnil: e != nil && e.cli != nil
-//@   modifies reqs, lastCmd, lastNArgs, lastA1, lastA2, lastA3, lastA4, lastReply
+//@   modifies reqs, lastCmd, lastNArgs, lastA1, lastA2, lastA3, lastA4, lastReply, nDel, nPexpire
 //@   ensures one_atomic_request: reqs == old(reqs) + 1 && lastCmd == "eval" && lastNArgs == 5
 //@   ensures one_key: len(asbytes(lastA1)) == 1 && asbytes(lastA1)[0] == '1'
 //@   ensures script_args: lastA2 == dyn(e.key) && lastA3 == dyn(e.id)
